@@ -36,6 +36,12 @@ func (fc *FnCtx) doCall(cc *ssa.CallCommon, pos token.Pos, site ssa.Instruction)
 	fv := fc.operand(cc.Value)
 	fc.oblige("nil", "call", not(eq(fv.L[0], bvLit(0, 64))), pos, "call of nil function value")
 	fc.anchorBefore("call dynamic", pos)
+	if par, ok := cc.Value.(*ssa.Parameter); ok && fc.c != nil && fc.c.Callbacks[par.Name()] {
+		fc.noteTrusted("callback parameter " + par.Name() + " of " + fc.name + " assumed to modify nothing visible here")
+		r := fc.freshValWF("cb", resT)
+		fc.anchorAfter("call dynamic", pos)
+		return r
+	}
 	fc.havocAll()
 	fc.noteTrusted("dynamic function value call: havoc of all state")
 	r := fc.freshValWF("dyn", resT)
@@ -240,7 +246,7 @@ func foreignWrites(sig *types.Signature, ns *NameSet) {
 
 // applyContract: check requires, havoc modifies, assume ensures. cond restricts the call to a case (invoke dispatch).
 func (fc *FnCtx) applyContract(callee *ssa.Function, c *Contract, args []Val, binds []Val, pos token.Pos, resT types.Type, cond string, short string) Val {
-	env := &Env{fc: fc, pkg: callee.Pkg.Pkg, vars: map[string]Val{}, bound: map[string]Val{}}
+	env := &Env{fc: fc, pkg: fc.eng.contractPkg(callee, c), vars: map[string]Val{}, bound: map[string]Val{}}
 	for i, p := range callee.Params {
 		if i < len(args) {
 			env.vars[p.Name()] = fc.coerce(args[i], p.Type())
